@@ -35,6 +35,8 @@ class Frame:
 
 
 class Engine:
+    SHARED_UFS = {}
+    SHARED_TAGS = {}
     def __init__(self, ast, specs=None, safety=()):
         self.ast = ast
         self.specs = specs            # registry (spec.Registry) or None
@@ -45,8 +47,10 @@ class Engine:
         self.nfresh = itertools.count()
         self.base_arrays = {}
         self.axioms_done = set()
-        self.ufs = {}
-        self.tags = {}
+        # shared by every engine of the process (one per compile-time configuration): the prover adds the object-identity axioms of a query
+        # through whichever engine was created last, so the numbering of the container kinds must not depend on the engine
+        self.ufs = Engine.SHARED_UFS
+        self.tags = Engine.SHARED_TAGS
         self.layout_cache = {}
         self.loop_ord_cache = {}
         self.models_used = set()
